@@ -1376,7 +1376,7 @@ returnVal.option() ?: return null
                     &mut special_methods,
                     method,
                     Some(self_param),
-                    None,
+                    Some(type_name),
                     use_finalizers_not_cleaners,
                 )
             })
@@ -1761,7 +1761,7 @@ returnVal.option() ?: return null
                     &mut special_methods,
                     method,
                     Some(self_param),
-                    None,
+                    Some(type_name),
                     use_finalizers_not_cleaners,
                 )
             })
@@ -1777,7 +1777,7 @@ returnVal.option() ?: return null
                     &mut special_methods,
                     method,
                     None,
-                    None,
+                    Some(type_name),
                     use_finalizers_not_cleaners,
                 )
             })
